@@ -435,11 +435,34 @@ def fam_registry(seed, i):
     return sc
 
 
+def stream_infinite(sc, rng):
+    """A stream that is ready at every poll and never ends (a socket under load): an explicit stop, or dropping the
+    last strong handle, must still terminate the actor - the mailbox may not be starved by the stream (C13, C04, C05)."""
+    sc["max_steps"] = 260
+    cfg = {"cap": rng.choice([-1, -1, 1, 2]), "strat": "none", "stream": True, "items0": 100000, "ended0": False,
+           "iscr": [Y], "fscr": [Y] * rng.choice([0, 1]), "pscr": [Y] * rng.choice([0, 1]), "sscr": [[Y] * rng.choice([0, 1])], "owning": False}
+    by_drop = rng.random() < 0.4
+    ncl = rng.randint(1, 2)
+    names = [f"c{k+1}" for k in range(ncl)]
+    kinds = {c: ("waddr" if by_drop else rng.choice(["addr", "sender", "caller", "waddr"])) for c in names}
+    kinds["cz"] = "addr"
+    main, handles = setup_main(rng, cfg, kinds, False, entry=rng.choice(["builder", "trait"]))
+    sc["clients"]["main"] = main
+    w = {"send": 5, "call": 3, "yield": 3, "stopped": 1, "upgrade": 1, "ping": 0.5}
+    cnt = [0]
+    for c in names:
+        sc["clients"][c] = Prog(rng, c, handles.get(c, {}), w, [[], [Y]], cnt).run(rng.randint(1, 3))
+    sc["clients"]["cz"] = [{"op": "yield"}] * rng.randint(0, 3) + [{"op": "drop" if by_drop else "stop", "h": "h_cz"}]
+    return sc
+
+
 def fam_stream(seed, i):
     """C13: stream-attached actors; streams empty / finite / never-ending / never-ready / bursts under client control."""
     rng = random.Random(f"stream-{seed}-{i}")
     sc = base("stream", seed, i, rng, horizon=6)
-    shape = rng.choice(["empty", "finite", "finite", "neverending", "neverready", "bursts", "bursts"])
+    shape = rng.choice(["empty", "finite", "finite", "neverending", "neverready", "bursts", "bursts", "infinite"])
+    if shape == "infinite":
+        return stream_infinite(sc, rng)
     items0 = {"empty": 0, "finite": rng.randint(1, 4), "neverending": rng.randint(0, 3), "neverready": 0, "bursts": rng.randint(0, 2)}[shape]
     ended0 = shape in ("empty", "finite")
     cfg = {"cap": rng.choice([-1, -1, 0, 1, 2]), "strat": "none", "stream": True, "items0": items0, "ended0": ended0,
